@@ -33,6 +33,8 @@ func (C07) ID() string { return "C07" }
 var evilIDs = []string{
 	"../escape_one", "../../escape_two", "/abs_escape", "a/../../escape_three", "..", "ok_id/../../escape_four",
 	"..\\escape_five", "nul\x00escape", "client/../../../escape_six", "valid_client_1",
+	// siblings whose name starts with the root's name ("/ks", ".../keystore")
+	"../ks-evil/x", "../ksX", "../keystore-evil/x", "../keystoreX", "../../keystore-backup/mallory", "../../b/keystore2/x",
 }
 
 func (C07) Explore(x *kernel.Explorer, seed uint64) {
@@ -349,6 +351,16 @@ func c07OwnerBinding(w *kernel.World, d *Disk, m *Model) {
 			h := freshObserver(d)
 			var got KeyVal
 			err, pv := Guard(func() error { var e error; got, e = h.ReadCurrent(rb.Kind, []byte(rb.Client)); return e })
+			if err != nil && pv == nil && d.Format == 2 && rb.Kind == KStoragePair {
+				// a copied ring must not load at all: the public half is in it too
+				err, pv = Guard(func() error {
+					pk, e := h.KS.GetClientIDEncryptionPublicKey([]byte(rb.Client))
+					if e == nil {
+						got = KeyVal{Secret: ra.Newest().Val.Secret, Public: pk.Value}
+					}
+					return e
+				})
+			}
 			diskSet(d, lb, db)
 			w.Probe("owner-swap")
 			if pv != nil {
